@@ -116,4 +116,152 @@ def handleC17 (toks : List String) : String :=
       pure (" ".intercalate (r.map fun e => match e.2 with | some k => toString k | none => "-1"))) rest
   | _ => err "op"
 
-def main : IO Unit := runDriver handleC17
+/-! ### objects (stateful part of the protocol)
+
+  so new CELL n POS NLIST theta cos          Strain(system, neighbors) without p vectors      -> ok
+  so setp AX kind m ...                      set_p_vectors: AX = `0` | `1 T9`; kind `flat m V*m` | `nested m (c V*c)*m` -> ok | err:value
+  so buildp CELL n POS NLIST                 build_p_vectors(basesystem, neighbors)             -> ok
+  so theta v c | so clear | so setpos POS    theta_max setter / clear_properties / in-place edit of the positions -> ok
+  so solve 0 | so solve 1 v c                solve_G(theta_max)                                  -> ok | err:value
+  so read PROP SEL                           property of the selected atoms                      -> numbers | err:value
+  do new SYS0 SYS1 ARGS | do solve ARGS      DifferentialDisplacement(...) / .solve(...)        -> ok | err:assert | err:value
+       SYS = CELL n POS;  ARGS = (0 | 1 SYS) (0 | 1 SYS) (0 | 1 m NLIST) (0 | 1 m NLIST m NLIST) (0 | 1 ref)
+  do read                                    -> none | k then 3k numbers
+  do state                                   -> reference, stored list (none | m NLIST)
+-/
+
+structure St where
+  so : Option (SObj Rat)
+  dob : Option (DObj Rat)
+
+def pOpt {α : Type} (p : P α) : P (Option α) := do
+  let b ← pBool
+  if b then (do let a ← p; pure (some a)) else pure none
+
+def pSys : P (Sys Rat) := do
+  let c ← pCell; let n ← pNat; let p ← pPos n
+  pure ⟨c, n, fn p⟩
+
+def pLists : P (List (List Nat)) := do let m ← pNat; pNlist m
+
+def pProp : P SProp := do
+  match (← tok) with
+  | "G" => pure .G | "strain" => pure .strain | "inv1" => pure .inv1 | "inv2" => pure .inv2 | "inv3" => pure .inv3
+  | "rotation" => pure .rotation | "angvel2" => pure .angvel2 | "nye" => pure .nye
+  | _ => failure
+
+def pPArg : P (PArg Rat) := do
+  match (← tok) with
+  | "flat" => do let m ← pNat; let l ← pMany pV3 m; pure (.flat l)
+  | "nested" => do
+      let m ← pNat
+      let l ← pMany (do let c ← pNat; pMany pV3 c) m
+      pure (.nested l)
+  | _ => failure
+
+def pDArgs (dflt : Option (Sys Rat × Sys Rat)) : P (DArgs Rat) := do
+  let s0 ← pOpt pSys; let s1 ← pOpt pSys
+  let nb ← pOpt pLists
+  let cut ← pOpt (do let a ← pLists; let b ← pLists; pure (a, b))
+  let r ← pOpt pNat
+  pEnd
+  pure ⟨s0, s1, nb, cut, r⟩
+
+def listsOk (n : Nat) (nl : List (List Nat)) : Bool := nl.length == n && nl.all (·.all (· < n))
+
+/-- the lists an argument set will use must index the atoms of the systems in play. -/
+def dargsOk (o : DObj Rat) (a : DArgs Rat) : Bool :=
+  let n := (a.sys0.getD o.sys0).n
+  (match a.neighbors with | some nl => listsOk n nl | none => true) &&
+  (match a.cutoff with | some ll => listsOk n ll.1 && listsOk n ll.2 | none => true) &&
+  (match o.nlist with | some nl => listsOk n nl || a.neighbors.isSome || a.cutoff.isSome | none => true)
+
+def showPayload (sel : List Nat) : Payload Rat → String
+  | .mats l => let a := l.toArray; " ".intercalate (sel.map fun i => showM (a.getD i zeroM))
+  | .nums l => let a := l.toArray; showRats (sel.map fun i => a.getD i 0)
+
+def runS (st : St) (p : P (St × String)) (toks : List String) : St × String :=
+  match p.run toks with
+  | some (r, _) => r
+  | none => (st, err "format")
+
+def stepC17 (st : St) (toks : List String) : St × String :=
+  match toks with
+  | "so" :: "new" :: rest => runS st (do
+      let c ← pCell; let n ← pNat; let p ← pPos n; let nl ← pNlist n; let th ← pRat; let co ← pRat; pEnd
+      if !nlistOk n nl then pure (st, err "value") else
+      let nla := nl.toArray
+      pure ({ st with so := some (SObj.fresh ⟨c, n, fn p, fun i => nla.getD i [], none, th, co⟩) }, "ok")) rest
+  | "so" :: op :: rest =>
+    match st.so with
+    | none => (st, err "op")
+    | some o =>
+      match op with
+      | "setp" => runS st (do
+          let ax ← pOpt pM3; let arg ← pPArg; pEnd
+          match givenP o.inp.n arg ax with
+          | none => pure (st, err "value")
+          | some pv =>
+            -- tabulate once (the model keeps a function)
+            let tab := ((List.range o.inp.n).map pv).toArray
+            pure ({ st with so := some (o.setP fun i => tab.getD i []) }, "ok")) rest
+      | "buildp" => runS st (do
+          let c ← pCell; let n ← pNat; let p ← pPos n; let nl ← pNlist n; pEnd
+          if !nlistOk n nl then pure (st, err "value") else
+          let tab := ((List.range n).map fun i => nbrVectors c (fn p) (nl.getD i []) i).toArray
+          pure ({ st with so := some (o.setP fun i => tab.getD i []) }, "ok")) rest
+      | "theta" => runS st (do
+          let v ← pRat; let c ← pRat; pEnd
+          pure ({ st with so := some (o.setTheta v c) }, "ok")) rest
+      | "clear" => ({ st with so := some o.clear }, "ok")
+      | "setpos" => runS st (do
+          let p ← pPos o.inp.n; pEnd
+          pure ({ st with so := some (o.setPos (fn p)) }, "ok")) rest
+      | "solve" => runS st (do
+          let th ← pOpt (do let v ← pRat; let c ← pRat; pure (v, c)); pEnd
+          let r := o.solve magR big th
+          pure ({ st with so := some r.1 }, if r.2 then "ok" else err "value")) rest
+      | "read" => runS st (do
+          let p ← pProp; let sel ← pSel o.inp.n; pEnd
+          let r := o.read magR big p
+          pure ({ st with so := some r.1 }, match r.2 with | some v => showPayload sel v | none => err "value")) rest
+      | _ => (st, err "op")
+  | "do" :: "new" :: rest => runS st (do
+      let s0 ← pSys; let s1 ← pSys
+      let blank : DObj Rat := ⟨s0, s1, 1, none, none⟩
+      let a ← pDArgs none
+      if !dargsOk blank a then pure (st, err "format") else
+      match a.reference with
+      | none => pure (st, err "format")
+      | some r =>
+        match DObj.init s0 s1 a.neighbors a.cutoff r with
+        | some o => pure ({ st with dob := some o }, "ok")
+        | none =>
+          -- which exception: re-run the solve on the blank object
+          if a.neighbors.isSome || a.cutoff.isSome then
+            match (DObj.solve blank ⟨some s0, some s1, a.neighbors, a.cutoff, some r⟩).2 with
+            | some .value => pure ({ st with dob := none }, err "value")
+            | _ => pure ({ st with dob := none }, err "assert")
+          else pure ({ st with dob := none }, err "assert")) rest
+  | "do" :: op :: rest =>
+    match st.dob with
+    | none => (st, err "op")
+    | some o =>
+      match op with
+      | "solve" => runS st (do
+          let a ← pDArgs none
+          if !dargsOk o a then pure (st, err "format") else
+          let r := o.solve a
+          pure ({ st with dob := some r.1 }, match r.2 with | none => "ok" | some .assert => err "assert" | some .value => err "value")) rest
+      | "read" =>
+        match o.dd with
+        | none => (st, "none")
+        | some l => (st, toString l.length ++ " " ++ showVs l)
+      | "state" =>
+        (st, toString o.reference ++ " " ++ (match o.nlist with
+          | none => "none"
+          | some nl => toString nl.length ++ " " ++ " ".intercalate (nl.map fun l => " ".intercalate (toString l.length :: l.map toString))))
+      | _ => (st, err "op")
+  | _ => (st, handleC17 toks)
+
+def main : IO Unit := runDriverS stepC17 ⟨none, none⟩
